@@ -66,6 +66,9 @@ var zzContexts = []zzCtx{
 	{"function f(p) { H } f(1);", true, true},
 	{"switch (a) { case 1 { H } default { t(1); } }", true, false},
 	{"switch (a) { case 1 { t(1); } default { H } }", true, false},
+	{"if (a) { return 1; H }", true, false},
+	{"function f(p) { if (p) { return p; H } return 2; } f(1);", true, true},
+	{"while (a) { return 3; H }", true, false},
 	{"x = H;", false, false},
 	{"return H;", false, false},
 	{"t(H);", false, false},
@@ -143,7 +146,7 @@ func ZZ_C13_FragmentInContext(sv *zzsv.T) {
 			c = zzContexts[sv.Choice("context", len(zzContexts))]
 		} else {
 			// outer levels: statement contexts only
-			c = zzContexts[sv.Choice("outer", 9)]
+			c = zzContexts[sv.Choice("outer", 12)]
 		}
 		if c.stmt && !isStmt {
 			text += ";"
